@@ -144,6 +144,16 @@ def correspond(ctx, scale):
         if first_mode == 'frozen':
             kwargs['freeze_codebook'] = True
         import contextlib
+        if ci % 4 == 1:
+            # a PARTIAL checkpoint loaded before the first batch (strict=False: only some keys, or none - the codebook is absent from it): what is not
+            # in the checkpoint stays as constructed, the first batch still initialises the codebook
+            try:
+                sd_full = vq.state_dict()
+                part = {k_: v_.clone() for k_, v_ in sd_full.items() if '_codebook' not in k_} if ci % 8 == 1 else {}
+                vq.load_state_dict(part, strict=False)
+                dist['partial_checkpoint_before_first_batch'] = dist.get('partial_checkpoint_before_first_batch', 0) + 1
+            except Exception as ex:
+                failures.append({'key': f'vq:partial-load:exception:{type(ex).__name__}', 'what': f'VectorQuantize({kw}).load_state_dict(partial, strict=False) raised {ex!r}', 'case': dict(kw=kw)})
         if ci % 4 == 3:
             # a first call that RAISES (an all-padding batch gives k-means nothing to sample from; an input of the wrong width) must leave the
             # module untouched: the next, valid call is then the initialising one ("initialised exactly once, from the first batch")
